@@ -37,7 +37,37 @@ fn collect(rep: &mut Report, shm: &Shm, label: &str) {
     rep.extra_violations += shm.get(C_LOG_DROPPED);
 }
 
+fn replay_comp(check_filters: bool) {
+    if let Some(req) = crate::report::replay_request("compx") {
+        let case = &req["artefact"]["case"];
+        let shm = Shm::new(1 << 4, 1 << 20);
+        if let Some(lens) = case["record_lengths"].as_array() {
+            let c = LogCase {
+                lens: lens.iter().map(|x| x.as_u64().unwrap_or(0) as usize).collect(),
+                split: case["writer_reopened_before_record_mask"].as_u64().unwrap_or(0) as u32,
+                truncations: true,
+                stop_between_fragments: true,
+            };
+            log_case(&c, &shm);
+        } else {
+            let ix = |k: &str| case[k].as_array().map(|a| a.iter().map(|x| x.as_u64().unwrap_or(0) as usize).collect::<Vec<_>>()).unwrap_or_default();
+            let c = TableCase {
+                keys: ix("keys"),
+                patterns: ix("patterns"),
+                block_size: case["max_block_size"].as_u64().unwrap_or(1) as usize,
+                variant: case["variant"].as_u64().unwrap_or(0) as usize,
+                big_values: case["big_values"].as_bool().unwrap_or(false),
+                sweep_len: case["sweep_len"].as_u64().map(|x| x as usize),
+            };
+            table_case(&c, &shm, check_filters, 3);
+        }
+        let f = parse_found(&shm);
+        crate::report::replay_done(f.first().map(|(c, d, _)| (c.clone(), d.clone())));
+    }
+}
+
 pub fn c12(tier: &str) -> ! {
+    replay_comp(false);
     let mut rep = Report::new("C12", tier, "exploration");
     let t = tier == "thorough";
     let cases = Arc::new(log_cases(t));
@@ -68,6 +98,7 @@ pub fn c12(tier: &str) -> ! {
 }
 
 pub fn c13(tier: &str) -> ! {
+    replay_comp(false);
     let mut rep = Report::new("C13", tier, "exploration");
     let t = tier == "thorough";
     let cases = Arc::new(if t { table_cases(4, &[1, 16, 64, 256, 1 << 20], 2) } else { table_cases(3, &[1, 16, 64, 256, 1 << 20], 1) });
@@ -104,6 +135,7 @@ pub fn c13(tier: &str) -> ! {
 }
 
 pub fn c14(tier: &str) -> ! {
+    replay_comp(true);
     let mut rep = Report::new("C14", tier, "exploration");
     let t = tier == "thorough";
     let shm = Arc::new(Shm::new(1 << 10, 16 << 20));
